@@ -54,3 +54,16 @@ package utils
 //@   frame none
 //@   ensures {C07} [accepted-page-size-is-0-to-1000] err == nil ==> 0 <= ret0 && ret0 <= 1000
 //@   ensures {C07} [absent-means-1000] str == "" ==> err == nil && ret0 == 1000
+
+// ---- C06: the hashing reader ----------------------------------------------------------------------------
+// Every byte handed on was fed to the hash, and the end of the wrapped stream is passed on as such only after the
+// digest of everything read was compared with the expected one and matched (when one is expected).
+//@ func (*HashReader) Sum
+//@   frame none
+//@ func (*HashReader) Read
+//@   let n = result("io.Reader.Read", 0)
+//@   let readerr = result("io.Reader.Read", 1)
+//@   at-call hash.Hash.Write {C06} [every-byte-read-is-hashed] requires called("io.Reader.Read") && len($0) == n
+//@   at-return {C06} [nothing-is-handed-on-unhashed] ensures called("hash.Hash.Write")
+//@   at-return {C06} [end-of-stream-passes-only-after-the-digest-matched] when ret1 == io.EOF && errors.Is(readerr, io.EOF) && hr.sum != "" :: \
+//@        ensures called("utils.HashReader.Sum") && result("utils.HashReader.Sum", 0) == hr.sum
